@@ -5,6 +5,7 @@ import (
 	"go/constant"
 	"go/token"
 	"go/types"
+	"sort"
 	"strings"
 
 	"verif/checker/eng"
@@ -176,6 +177,92 @@ func runC20(p *eng.Prog, r *eng.Report, tier string) {
 			})
 			c.r.Check("C20.2", f, "form comparator", "T: forms are ordered by their FORM_TYPE value", lit.Pos(), okc, "comparator does not read FORM_TYPE")
 		}
+	}
+
+	// ---- C20.2b the sort key covers what is hashed ----------------------------------------
+	// sort.Slice is not stable and leaves elements with equal keys in an order
+	// that depends on the input order: whatever part of an element reaches the
+	// hash must be part of the comparator's key, unless the property's
+	// quantifier excludes elements that differ only in that part.
+	keyExempt := map[string]string{
+		"recv.Identity|.Name": "the property quantifies over identities with distinct category/type/language: two identities never tie on the key",
+	}
+	for _, sc := range f.Calls("sort.Slice") {
+		lit, ok := sc.Args[1].(*ast.FuncLit)
+		if !ok {
+			continue
+		}
+		lf := c.p.FnOfLit(lit)
+		xs := f.Norm(sc.Args[0], nil)
+		// accessors the comparator applies to an element X[i]
+		accessorsOf := func(fn *eng.Fn, root ast.Node, isElem func(e ast.Expr) bool) map[string]bool {
+			out := map[string]bool{}
+			ast.Inspect(root, func(x ast.Node) bool {
+				switch y := x.(type) {
+				case *ast.SelectorExpr:
+					if isElem(y.X) {
+						out["."+y.Sel.Name] = true
+					}
+				}
+				return true
+			})
+			return out
+		}
+		// locals of the comparator bound to X[a] / X[b]
+		elemLocals := map[types.Object]bool{}
+		isElemInLess := func(e ast.Expr) bool {
+			e = ast.Unparen(e)
+			if ix, ok := e.(*ast.IndexExpr); ok {
+				return lf.Norm(ix.X, nil) == strings.Replace(xs, "recv.", "outer.recv.", 1) || strings.HasSuffix(lf.Norm(ix.X, nil), strings.TrimPrefix(xs, "recv"))
+			}
+			if idn, ok := e.(*ast.Ident); ok {
+				return elemLocals[lf.Info().ObjectOf(idn)]
+			}
+			return false
+		}
+		ast.Inspect(lit.Body, func(x ast.Node) bool {
+			if as, ok := x.(*ast.AssignStmt); ok && len(as.Lhs) == len(as.Rhs) {
+				for i, r := range as.Rhs {
+					if isElemInLess(r) {
+						if idn, ok := as.Lhs[i].(*ast.Ident); ok {
+							elemLocals[lf.Info().ObjectOf(idn)] = true
+						}
+					}
+				}
+			}
+			return true
+		})
+		keys := accessorsOf(lf, lit.Body, isElemInLess)
+		// the loop that hashes the same collection
+		f.WalkBody(func(nd ast.Node) bool {
+			rs, ok := nd.(*ast.RangeStmt)
+			if !ok || f.Norm(rs.X, nil) != xs || len(writesHash(f, rs.Body, hname)) == 0 {
+				return true
+			}
+			vid, _ := rs.Value.(*ast.Ident)
+			if vid == nil {
+				return true
+			}
+			vo := f.Info().ObjectOf(vid)
+			isElem := func(e ast.Expr) bool {
+				idn, ok := ast.Unparen(e).(*ast.Ident)
+				return ok && f.Info().ObjectOf(idn) == vo
+			}
+			content := accessorsOf(f, rs.Body, isElem)
+			var missing []string
+			for a := range content {
+				if keys[a] {
+					continue
+				}
+				if _, ex := keyExempt[xs+"|"+a]; ex {
+					continue
+				}
+				missing = append(missing, a)
+			}
+			sort.Strings(missing)
+			c.r.Check("C20.2", f, "sort key of "+xs+" covers what is hashed", "T: every accessor of an element used in the hashing loop is also read by the comparator (ties are left in input order), up to the reasoned exemptions", sc.Pos(), len(missing) == 0, "the loop hashes "+strings.Join(missing, ", ")+" of each element but the comparator does not compare it: two elements that tie on the key are hashed in input order")
+			return true
+		})
 	}
 
 	// ---- C20.6 every element of a hashed collection feeds the hash -----------------------
